@@ -18,10 +18,10 @@ from .registry import THEOREMS_C11 as THEOREMS  # noqa: E402
 META = {
     "technique": "Lean 4 induction over run-loop steps (model MDOut; TDM stream with nested gates and capacity guard in C11Tdm) + AST-translated _n_timepoints and output gates (incl. do_tdm) + exhaustive/seeded cadence-lattice correspondence through the real run loop",
     "level_text": "Theorems (all cadence tuples incl. 0/coprime/larger-than-run, all run lengths): every HDF5/XYZ/screen/checkpoint stream of the modelled run loop equals the due-step specification, capacity = number of due rows, labels strictly increasing. The model is tied to the code by regenerating _n_timepoints from its Python AST on every run and by a differential check of the real run loop + HDF5Writer + XYZWriter (stub or real force engine) against the compiled Lean model on a lattice of cadence tuples.",
-    "level_note": "Trusted: Lean kernel; translator for _n_timepoints; harness reading HDF5/XYZ/checkpoint files; the stub force engine replaces only the electronic-structure call (scheduling/writer code under test is the real one). Values stored per step are validated bitwise against a cadence-1 reference run (probe), not proved. The TDM stream is modelled (C11Tdm.lean: rows = steps due for both the data and the TDM cadence, exact iff every multiple of the TDM cadence in the run is a multiple of the data cadence; F10 witness) and tied by the AST translation of its do_tdm test only, not by a differential run (it needs an excited-state engine with save_tdm).",
+    "level_note": "Trusted: Lean kernel; translator for _n_timepoints; harness reading HDF5/XYZ/checkpoint files; the stub force engine replaces only the electronic-structure call (scheduling/writer code under test is the real one). Values stored per step are validated bitwise against a cadence-1 reference run (probe), not proved. The TDM stream is modelled (C11Tdm.lean: rows = steps due for both the data and the TDM cadence, exact iff every multiple of the TDM cadence in the run is a multiple of the data cadence; F10 witness) and tied by the AST translation of its do_tdm test and by differential runs of the real run loop with the CIS engine (labels and capacity on file vs the compiled model).",
     "design_ref": "DESIGN.md section 5 C11",
     "modelled": {"OutputConfig.from_dict": True, "HDF5Writer._n_timepoints": "AST-translated", "append_data/append_vectors gates": True,
-                 "XYZWriter": True, "screen/checkpoint cadence": True, "nonadiabatic stream": "gate AST-translated (GatesTie) + MDState.na_fresh_stream", "TDM stream": "C11Tdm: nested gates + capacity guard, gate AST-translated (gateTdm); no dynamic correspondence of this stream"},
+                 "XYZWriter": True, "screen/checkpoint cadence": True, "nonadiabatic stream": "gate AST-translated (GatesTie) + MDState.na_fresh_stream", "TDM stream": "MDOut.tdmRun (theorems C11Tdm): nested gates + capacity guard; gate AST-translated (gateTdm); differential runs of the real CIS engine against the compiled model"},
     "assumptions": ["record stored for step s is a function of the state at step s (writers do not mutate the state): validated bitwise against a cadence-1 reference"],
 }
 
@@ -120,6 +120,35 @@ def probe_na_stream(inp):
             bad.append(f"mol{m}: unwritten nonadiabatic rows {o.get('na_rows_written')}")
     return {"ok": not bad, "observed": bad[:6], "expected": "every stream = initial snapshot + multiples of its own cadence, absolute labels", "predicate": "labels(stream) == due",
             "fields": {"kinds": ["labels:nonadiabatic"] if any("nonadiabatic" in b for b in bad) else (["labels"] if bad else []), "engine": "surface_hopping", "resumed": inp.get("stop_at") is not None}}
+
+
+def tdm_case(inp):
+    """REAL excited-state engine (CIS, water) with the transition-density-matrix stream on: labels on file, capacity, which rows were ever written"""
+    import contextlib
+    import glob
+    import io
+    import shutil
+
+    import h5py
+
+    d = mdh.scratch_dir("c11tdm")
+    try:
+        sc = dict(engine="basic", stub=False, mols=["h2o"], molid=[0], steps=inp["steps"], temp=300.0, dt=0.4,
+                  cad=dict(data=inp["data"], tdm=inp["tdm"], coordinates=0, velocities=0, forces=0, xyz=0, print=0, ckpt=0),
+                  seqm={"excited_states": {"n_states": 2, "method": "cis"}, "active_state": 1})
+        mol, md = mdh.make_md(sc, os.path.join(d, "md"))
+        with contextlib.redirect_stdout(io.StringIO()):
+            md.run(mol, sc["steps"], seed=1)
+        fs = glob.glob(os.path.join(d, "*.h5"))
+        with h5py.File(fs[0], "r") as h:
+            if "data" not in h or "excitation" not in h["data"] or "transition_density_matrices" not in h["data/excitation"]:
+                return {"labels": [], "cap": 0}
+            g = h["data/excitation/transition_density_matrices"]
+            steps = [int(v) for v in g["steps"][:]]
+            written = [bool(np.abs(g["values"][i]).max() > 0) for i in range(len(steps))]
+        return {"labels": [s_ for s_, w in zip(steps, written) if w], "cap": len(steps), "written": written}
+    finally:
+        shutil.rmtree(d, ignore_errors=True)
 
 
 def _observer_child(inp):
@@ -326,6 +355,23 @@ def run(ctx: Ctx):
             ctx.obligation("probe na_stream evaluated", False, repr(r)[-1200:], kind="harness")
             continue
         ctx.probe_case("na_stream", c, r["ok"], fields=r["fields"], observed=r["observed"], expected=r["expected"], predicate=r["predicate"], stratum="resumed" if c.get("stop_at") else "fresh")
+    # the transition-density-matrix stream: the real run loop + append_data against the Lean model `MDOut.tdmRun` (theorems in C11Tdm.lean). The stream is
+    # not among those C11 enumerates (finding F10 is reported, not raised): a disagreement here is a broken correspondence for the model, no property predicate
+    tdm_cases = [dict(data=2, tdm=3, steps=6), dict(data=1, tdm=2, steps=5), dict(data=2, tdm=4, steps=8), dict(data=3, tdm=7, steps=6)]
+    if ctx.thorough:
+        tdm_cases += [dict(data=int(rng.integers(1, 4)), tdm=int(rng.integers(1, 6)), steps=int(rng.integers(3, 10))) for _ in range(6)]
+    drv = leanproj.Driver()
+    try:
+        for c, r in zip(tdm_cases, mdh.pmap(tdm_case, tdm_cases, nproc=4, timeout=1500)):
+            if isinstance(r, Exception) or r is None:
+                ctx.obligation("tdm_case harness", False, repr(r)[-1200:], kind="harness")
+                continue
+            mline = " ".join(drv.ask("tdm", c["data"], c["tdm"], c["steps"]))
+            iline = "labels=" + ",".join(map(str, r["labels"])) + " cap=" + str(r["cap"])
+            ctx.corr_case("tdm_stream", c, mline, iline, " ".join(mline.split()) == " ".join(iline.split()), nontrivial=len(r["labels"]) >= 2,
+                          stratum="exact" if c["tdm"] % c["data"] == 0 else "lcm")
+    finally:
+        drv.close()
     # output actions are observers (real engine; ground and excited surface; every stream on)
     ex = {"excited_states": {"n_states": 2, "method": "cis"}, "active_state": 1}
     ob_cases = [dict(mols=["ch2o"], steps=3, data=1, xyz=1, ckpt=2, seqm=ex), dict(mols=["h2o"], steps=4, data=int(rng.choice([1, 2])), xyz=1, ckpt=0, engine=str(rng.choice(["basic", "xl"])))]
